@@ -138,20 +138,18 @@ def kindObj : MsgKind → TObj
 /-- `Optional[t]` -/
 def optionalOf (t : Hint) : Hint := .generic .union [t, .obj .noneType]
 
-/-- THE ASSUMED ANNOTATION OF A FIELD (see the header): a repeated field is `List[base]`, a map field
-    `Dict[K, V]`, a wrapper field `Optional[wrapped scalar]`, a proto3-optional field `Optional[base]`,
+/-- THE ASSUMED ANNOTATION OF A FIELD (see the header): a map field is `Dict[K, V]` (whatever `repeated` says:
+    bpgen `build_bp` tests `ty == "map"` first), a repeated field `List[base]`, a wrapper field (`wraps` is only ever set by `message_field`) `Optional[wrapped scalar]`, a proto3-optional field `Optional[base]`,
     anything else `base` = the scalar class / the enum class / the message class / `datetime` / `timedelta` -/
 def typeHint (f : FieldD) : Hint :=
   let base : Hint :=
-    if f.ty == .message then
-      (match f.wraps with
-       | some w => optionalOf (.obj (scalarObj Option.none w))
-       | Option.none => .obj (kindObj f.kind))
-    else .obj (scalarObj f.enumRef f.ty)
-  if f.repeated then .generic .list [base]
-  else if f.ty == .map then
+    match f.wraps with
+    | some w => optionalOf (.obj (scalarObj Option.none w))
+    | Option.none => if f.ty == .message then .obj (kindObj f.kind) else .obj (scalarObj f.enumRef f.ty)
+  if f.ty == .map then
     .generic .dict [.obj (scalarObj Option.none f.mapK),
                     if f.mapV == .message then .obj (kindObj f.mapVKind) else .obj (scalarObj f.enumRef f.mapV)]
+  else if f.repeated then .generic .list [base]
   else if f.optional && f.wraps.isNone then optionalOf base
   else base
 
